@@ -15,6 +15,7 @@ import (
 	"context"
 	"sort"
 	"sync"
+	"time"
 
 	"github.com/westerndigitalcorporation/blb/internal/core"
 )
@@ -202,4 +203,40 @@ func C04FailRestore(t *VerifTS, m map[core.TractID]core.Error) {
 	for k, v := range m {
 		s.failures[k] = v
 	}
+}
+
+// ---- RS pieces (third harness of C04: internal/curator TestVerifC04RS) ----
+
+// C04RawFile reads a tract file straight from the platter (content only; nil, false if there is no file).
+func C04RawFile(t *VerifTS, id core.TractID) ([]byte, bool) {
+	m := t.Disk
+	m.lock.Lock()
+	defer m.lock.Unlock()
+	fd, ok := m.fds[id]
+	if !ok {
+		return nil, false
+	}
+	return append([]byte(nil), m.files[fd]...), true
+}
+
+// C04SetIncrement sets EncodeIncrementSize of the running Store (repeat after a restart).
+func C04SetIncrement(t *VerifTS, inc int) {
+	cfg := *t.Store.Config()
+	cfg.EncodeIncrementSize = inc
+	t.Store.SetConfig(cfg)
+}
+
+// C04HasTracts is what the heartbeat lists as held (GetSomeTractsByPartition, all shards).
+func C04HasTracts(t *VerifTS) []core.TractID { return t.AllTracts() }
+
+// C04CheckTractsWait returns when the Store's checkTractsLoop has finished every request queued before
+// the call: an empty request is queued behind them; once the (sequential) loop has taken it, the earlier
+// ones are done.
+func C04CheckTractsWait(t *VerifTS) {
+	t.Store.checkTractsCh <- nil
+	for len(t.Store.checkTractsCh) > 0 {
+		time.Sleep(20 * time.Microsecond)
+	}
+	// the loop holds the empty request now; let it finish its (empty) round
+	time.Sleep(20 * time.Microsecond)
 }
